@@ -35,6 +35,7 @@ type HistOpts struct {
 	Fanout        bool // a dispute story whose fee is paid from the bond of a reporter with several selectors, twice (every per-account list has several entries)
 	TieBias       bool // equal-power reporters submitting a few distinct values (equal-weight ties in weighted-mode rounds)
 	Stories       int  // percentage of histories that contain a scripted dispute life cycle
+	ValSlash      bool // SDK-native slashing of a validator for an infraction (share price below one, unbonding entries below their initial balance)
 	ValStatus     bool // SDK-native validator jail / unjail events (validators leave and re-enter the bonded set)
 	DisputeBias   int  // extra weight for dispute lifecycle ops
 	StakingBias   int
@@ -392,6 +393,11 @@ func (w *World) RandomOp(o HistOpts) {
 			}
 		}})
 	}
+	if o.ValSlash && len(w.Vals) > 1 {
+		ops = append(ops, op{2, func() {
+			w.ValSlash(w.Vals[w.pick(len(w.Vals))], []int64{1, 5, 5, 50}[w.pick(4)], int64(w.pick(6)))
+		}})
+	}
 	if o.Boundary {
 		// privileged messages from non-authority signers (must be rejected)
 		ops = append(ops, op{2, func() {
@@ -670,6 +676,13 @@ func (w *World) DisputeStory(o HistOpts) {
 	if !w.block(o, 2*sec, func() { w.Tip(tipper, w.currentCycleQuery(), int64(1_000_000+w.pick(5_000_000))) },
 		func() { w.Tip(tipper, second, int64(1_000_000+w.pick(5_000_000))) },
 		func() { w.Submit(r, w.currentCycleQuery(), hex32(uint64(1000+w.pick(5)))) },
+		// (the backing stake changes between the two reports of this block: each reward is divided by the stake
+		// recorded with its own report)
+		func() {
+			if w.pick(2) == 0 {
+				w.Delegate(r, w.val(), int64(1_000_000*(1+w.pick(40))))
+			}
+		},
 		func() { w.Submit(r, second, hex32(uint64(1000+w.pick(5)))) }) {
 		return
 	}
@@ -721,6 +734,16 @@ func (w *World) DisputeStory(o HistOpts) {
 			w.block(o, 3*sec, early...)
 		}
 		w.block(o, 3*sec, outs...)
+		// ... and the validators are then punished for an infraction committed before that: the unbonding entries are
+		// slashed too and hold less than their initial balance
+		if o.ValSlash && len(early) > 0 {
+			var sl []func()
+			for _, v := range w.Vals {
+				v := v
+				sl = append(sl, func() { w.ValSlash(v, []int64{5, 50}[w.pick(2)], 8) })
+			}
+			w.block(o, 3*sec, sl...)
+		}
 	} else {
 		w.block(o, 3*sec)
 	}
